@@ -8,11 +8,16 @@
    events, and its energy_gained grew by the energies of its charge events; every station's balance grew by the prices of the
    charge events at that station and its energy_dispensed, per energy type, by their energies.  So what vehicles paid /
    gained and what stations received / dispensed are the SAME event sums.
-   PARTIAL: the regrouping of the per-entity sums into fleet totals is not stated as a theorem (Ledger monitor). *)
+   Fleet totals (C05_fleet_totals, Proofs/Fleet.v): every book event names a vehicle and a station that exist and no entity
+   appears or disappears, so the per-entity sums regroup: summed over the fleet, the energy vehicles gained = the sum of all charge
+   events' energies = (C05_energy_by_type) the Electric + Gasoline sums, which are what the stations report as dispensed per type;
+   the fleet's balance moved by all fares minus all charge prices, and the stations' balances by exactly those prices.
+   Modelled, not verified: a model vehicle books energy_gained for its powertrain's single energy type (the source keeps a
+   per-type map with one key); floats are Q. *)
 From Hive.Base Require Import Prelude.
 From Hive.Model Require Import Types KernelBase SimOps States Step.
 From Hive.Gen Require Import Kernels.
-From Hive.Proofs Require Import Trip Energy VehFrame Macro CountInv AcctInv.
+From Hive.Proofs Require Import Trip Energy VehFrame Macro CountInv Sorted AcctInv Fleet.
 Local Open Scope Q_scope.
 
 Theorem C05_charge_ledger : forall env s vid sid cid s', charge env s vid sid cid = Ok s' ->
@@ -53,6 +58,20 @@ Proof.
   - intros k x0 F. destruct (S k x0 F) as (x & Fx & A). eauto.
 Qed.
 Print Assumptions C05_books_over_histories.
+Theorem C05_fleet_totals : forall env ops s0, vkeys s0 -> skeys (stations s0) -> Forall op_ok ops -> log s0 = [] ->
+  let s := fold_left (step_op env) ops s0 in
+  let vs := sorted_keys (vehicles s0) in let ss := sorted_keys (stations s0) in
+  (forall k, In k (sorted_keys (vehicles s)) <-> In k vs) /\ (forall k, In k (sorted_keys (stations s)) <-> In k ss) /\
+  over vs (vget v_gained s) == over vs (vget v_gained s0) + evsum ev_energy (log s) /\
+  over ss (sget s_disp_e s) == over ss (sget s_disp_e s0) + evsum (ev_energy_t Electric) (log s) /\
+  over ss (sget s_disp_g s) == over ss (sget s_disp_g s0) + evsum (ev_energy_t Gasoline) (log s) /\
+  over vs (vget v_balance s) == over vs (vget v_balance s0) + evsum ev_value (log s) - evsum ev_price (log s) /\
+  over ss (sget s_balance s) == over ss (sget s_balance s0) + evsum ev_price (log s) /\
+  over vs (vget v_odo s) == over vs (vget v_odo s0) + evsum ev_dist (log s).
+Proof. exact fleet_books. Qed.
+Theorem C05_energy_by_type : forall l, evsum ev_energy l == evsum (ev_energy_t Electric) l + evsum (ev_energy_t Gasoline) l.
+Proof. exact energy_by_type. Qed.
+Print Assumptions C05_fleet_totals. Print Assumptions C05_energy_by_type.
 
 Print Assumptions C05_charge_ledger. Print Assumptions C05_payment_conserved.
 Print Assumptions C05_gained_is_added_bev. Print Assumptions C05_gained_is_added_ice.
